@@ -123,7 +123,7 @@ let run fence =
          (match split_ws line with
           | ("corrupt" | "nofill") :: _ -> diverge "implementation-side oracle" line
           | "end" :: rest ->
-            List.iter (fun (k, v) -> if (k = "live_blocks" || k = "errors") && v <> 0 then diverge ("at exit " ^ k) line) (kv (String.concat " " rest))
+            List.iter (fun (k, v) -> if (k = "live_blocks" || k = "errors" || k = "stale_writes") && v <> 0 then diverge ("at exit " ^ k) line) (kv (String.concat " " rest))
           | _ -> ())
      done
    with End_of_file -> ());
